@@ -95,8 +95,9 @@ CLAIMED = {
                 "Python sorted): flag = (p <= alpha_adj) for every procedure/correction in input order; adjusted p-values are "
                 "the running min/max of the corrected values in rank order (closed forms) and preserve the raw order; rejection "
                 "sets are the step-up / step-down sets; rejected <-> pvalue_adj <= alpha for BH, BY, Hochberg-Bonferroni and "
-                "Holm-Bonferroni; BH/BY range. Sidak equivalence, permutation invariance and purity are validated by the "
-                "oracle (textbook references, shuffles, deep copies), not proved",
+                "Holm-Bonferroni; BH/BY range; order independence (same multiset of p-values in another order gives every "
+                "hypothesis the same adjusted p-value and decision, ties included) for those four. The Sidak variants and "
+                "purity are validated by the oracle (textbook references, shuffles, deep copies), not proved",
         "note": "trusted: Coq kernel, stdlib real axioms, translator incl. loop pattern + lib/Loop.v, exact-number wrapper in the "
                 "harness; Python sorted() stable",
         "technique": "Coq proof (list induction over the sorted family) on a translator-generated model; exact differential; textbook oracle",
@@ -156,15 +157,17 @@ CLAIMED = {
         "design": "DESIGN.md section 5, C09",
     },
     "C01": {
-        "text": "Coq theorems (props/C01.v): the arithmetic of each of the three query plans of aggr.py yields the unbiased sample "
-                "(co)variance of the group's rows for all tables (narwhals: mean of products of demeaned columns / (1 - 1/n); ibis "
-                "fallback: sum / (count - 1)); the (n-1) normalisation matters; two-pass shape (offset-free); other variants' rows "
-                "irrelevant. The plans (model/ReadPlan.plan_of_spec) are tied to the REAL narwhals and ibis builders (both "
-                "branches) by plan capture with equality decided in Coq. Partial: engines evaluate plans as read; error bound",
-        "note": "trusted: Coq kernel, stdlib real axioms, plan recorders, the five executable engines for the denotation; ibis "
-                "native var/cov semantics; no rounding-error theorem",
-        "technique": "Coq proof of the plan arithmetic + plan reification from the real query builders compared in Coq; "
-                     "exact-rational differential on five backends",
+        "text": "Coq theorems (props/C01.v): under a denotational semantics of the plan language (lib/PlanSem.v: with_columns, "
+                "window mean over the partition, GROUP BY) the plan of each of the three builders of aggr.py yields, for every "
+                "request and every table, one row per variant carrying the exact count, means, unbiased variances and "
+                "covariances of that variant's rows (naming hypotheses forced by the proof: data columns are not aliases; cov "
+                "aliases do not collide = the known finding); the (n-1) normalisation matters; two-pass shape (offset-free). "
+                "The plans (model/ReadPlan.plan_of_spec) are tied to the REAL narwhals and ibis builders (both branches) by "
+                "plan capture with equality decided in Coq. Partial: engines evaluate plans as the semantics reads them; error bound",
+        "note": "trusted: Coq kernel, stdlib real axioms, plan recorders, lib/PlanSem.v as the meaning of a plan, the five "
+                "executable engines (differential incl. large-table probe); ibis native var/cov; no rounding-error theorem",
+        "technique": "Coq proof of the plan denotation (list induction, field) + plan reification from the real query builders "
+                     "compared in Coq; exact-rational differential on five backends",
         "design": "DESIGN.md section 5, C01",
     },
     "C02": {
